@@ -196,22 +196,22 @@ func presenceTable(c *core.Ctx, p *procInfo, lit *ssa.Function) (rs rows, runs i
 						return nil
 					}
 				}
-				var bind []absint.Value
-				for _, fv := range lit.FreeVars {
-					et := fv.Type()
+				_, recv, bind := callbackFrame(lit, func(ty types.Type) absint.Value {
+					et := ty
 					if pt, ok := et.Underlying().(*types.Pointer); ok {
 						et = pt.Elem()
 					}
 					switch {
 					case core.NamedOf(et) == prop:
-						bind = append(bind, &absint.Cell{V: pr})
+						return pr
 					case types.IsInterface(et):
-						bind = append(bind, &absint.Cell{V: &absint.Opaque{Why: "logger"}})
-					default:
-						bind = append(bind, &absint.Cell{V: proc})
+						return &absint.Opaque{Why: "logger"}
+					case core.NamedOf(et) == p.T:
+						return proc
 					}
-				}
-				return t, []absint.Value{absint.Str(e.text)}, bind
+					return nil
+				})
+				return t, append(recv, absint.Str(e.text)), bind
 			}
 			check := func(ip *absint.Interp, out absint.Outcome) {
 				w := fmt.Sprintf("placeholder=%q value=%s asked=%v recorded=%v formatted=%s => %s", e.text, v.name, asked, recorded, absint.Show(used), showOutcome(out))
@@ -263,7 +263,7 @@ func presenceTable(c *core.Ctx, p *procInfo, lit *ssa.Function) (rs rows, runs i
 					rs.fail("recorded", w)
 				}
 			}
-			n, u := runTable(c, lit, build, check)
+			n, u := runTable(c, resolveWrapper(lit), build, check)
 			runs += n
 			if u != "" {
 				return rs, runs, u
@@ -325,6 +325,11 @@ func c02Loops16(c *core.Ctx, r *core.Report) {
 		form, why := loopForm(l.Info, l.Node)
 		forms[form]++
 		cons := fmt.Sprintf("loop:%s.%s#%d", l.Pkg, l.Func, l.Ord)
+		if form == "unbounded" && ssaLoopBounded(c, l.Node) {
+			form = "bounded-exit(ssa)"
+			forms["unbounded"]--
+			forms[form]++
+		}
 		if form == "unbounded" {
 			r.Fail("C16.R1", cons, c.Pos(l.Node.Pos()), "substitution loop has no bounded form: "+why+" (a configuration value that refers to itself would make start-up spin forever)")
 		} else {
@@ -378,6 +383,9 @@ func c16Delimiters(c *core.Ctx, r *core.Report) {
 				continue
 			}
 			a := ci.Common().Args
+			if len(a) != 3 {
+				continue
+			}
 			pre, ok1 := core.ConstInt(a[1])
 			suf, ok2 := core.ConstInt(a[2])
 			var pat string
@@ -396,6 +404,11 @@ func c16Delimiters(c *core.Ctx, r *core.Report) {
 			open := strings.ReplaceAll(strings.TrimSuffix(pat, body), "\\", "")
 			ok = open == h.open && int(pre) == len(open) && suf == 1
 			detail = fmt.Sprintf("pattern %q, strips %d+%d characters", pat, pre, suf)
+		}
+		if !ok && detail == "constructor shape not recognised" {
+			// another constructor shape: what the helper matches and strips is decided by the substitution table
+			// (C16.R7 interprets the constructor and the engine on concrete texts with the real pattern)
+			continue
 		}
 		r.Check(ok, "C16.R6", cons, c.FnPos(fn), "the helper matches "+h.open+"...} with brace-free content and strips exactly its delimiters: "+detail)
 	}
